@@ -78,6 +78,8 @@ struct Cfg {
     tail: Option<String>,
     /// path into nested `if` / `if let` bodies: (statement index, "then" | "else") steps; the statements of the block reached are the body
     inner_block: Vec<(usize, String)>,
+    /// local fixed-size arrays (possibly nested) that are only ever indexed by literals: `c[0][1]` becomes the scalar variable `c_0_1`
+    scalarize: Vec<String>,
 }
 
 fn default_methods() -> BTreeMap<String, String> {
@@ -1534,6 +1536,84 @@ fn get_map(v: &Value, k: &str) -> Vec<(String, String)> {
 }
 
 /// `#[cfg(flo_curves_verif)]` on a statement: a verification hook
+/// `c[0][1]` (literal indices, `c` in `names`) -> "c_0_1"
+fn scalar_name(e: &Expr, names: &[String]) -> Option<String> {
+    match e {
+        Expr::Paren(p) => scalar_name(&p.expr, names),
+        Expr::Path(p) if p.path.segments.len() == 1 => {
+            let n = p.path.segments[0].ident.to_string();
+            if names.contains(&n) { Some(n) } else { None }
+        }
+        Expr::Index(i) => {
+            let base = scalar_name(&i.expr, names)?;
+            let k = int_lit(&i.index)?;
+            Some(format!("{}_{}", base, k))
+        }
+        _ => None,
+    }
+}
+
+fn scalar_leaves(prefix: &str, e: &Expr, out: &mut Vec<(String, Expr)>) {
+    match e {
+        Expr::Array(a) => {
+            for (k, el) in a.elems.iter().enumerate() {
+                scalar_leaves(&format!("{}_{}", prefix, k), el, out);
+            }
+        }
+        other => out.push((prefix.to_string(), other.clone())),
+    }
+}
+
+struct Scalarize<'n> {
+    names: &'n [String],
+}
+
+impl<'n> Scalarize<'n> {
+    fn expand(&mut self, stmts: Vec<Stmt>) -> Vec<Stmt> {
+        let mut out = vec![];
+        for mut st in stmts {
+            if let Stmt::Local(l) = &st {
+                if let (Pat::Ident(pi), Some(init)) = (&l.pat, &l.init) {
+                    let n = pi.ident.to_string();
+                    if self.names.contains(&n) && matches!(&*init.expr, Expr::Array(_)) {
+                        let mut leaves = vec![];
+                        scalar_leaves(&n, &init.expr, &mut leaves);
+                        for (name, mut e) in leaves {
+                            syn::visit_mut::VisitMut::visit_expr_mut(self, &mut e);
+                            let mutk = if pi.mutability.is_some() { "mut " } else { "" };
+                            let mut new: Stmt = parse_str(&format!("let {}{} = 0;", mutk, name)).unwrap();
+                            if let Stmt::Local(nl) = &mut new {
+                                nl.init.as_mut().unwrap().expr = Box::new(e);
+                            }
+                            out.push(new);
+                        }
+                        continue;
+                    }
+                }
+            }
+            syn::visit_mut::VisitMut::visit_stmt_mut(self, &mut st);
+            out.push(st);
+        }
+        out
+    }
+}
+
+impl<'n> syn::visit_mut::VisitMut for Scalarize<'n> {
+    fn visit_expr_mut(&mut self, e: &mut Expr) {
+        if matches!(e, Expr::Index(_)) {
+            if let Some(n) = scalar_name(e, self.names) {
+                *e = parse_str::<Expr>(&n).unwrap();
+                return;
+            }
+        }
+        syn::visit_mut::visit_expr_mut(self, e);
+    }
+    fn visit_block_mut(&mut self, b: &mut Block) {
+        let stmts = std::mem::take(&mut b.stmts);
+        b.stmts = self.expand(stmts);
+    }
+}
+
 fn stmt_is_verif_hook(s: &Stmt) -> bool {
     fn has(attrs: &[Attribute]) -> bool {
         attrs.iter().any(|a| a.path().is_ident("cfg") && tok(&a.meta).replace(' ', "").contains("cfg(flo_curves_verif)"))
@@ -1632,6 +1712,7 @@ fn main() {
             cfg.skip_stmts = t.get("skip_stmts").and_then(|x| x.as_u64()).map(|x| x as usize).unwrap_or(0);
             cfg.tail = get_str(t, "tail");
             cfg.inner_block = t.get("inner_block").and_then(|x| x.as_array()).map(|a| a.iter().filter_map(|st| { let st = st.as_array()?; Some((st.get(0)?.as_u64()? as usize, st.get(1)?.as_str()?.to_string())) }).collect()).unwrap_or_default();
+            cfg.scalarize = t.get("scalarize").and_then(|x| x.as_array()).map(|a| a.iter().filter_map(|x| x.as_str().map(|s| s.to_string())).collect()).unwrap_or_default();
             cfg.self_fields = t.get("self_fields").and_then(|x| x.as_array()).map(|a| a.iter().filter_map(|x| x.as_str().map(|s| s.to_string())).collect()).unwrap_or_default();
             cfg.loop_fuel = match t.get("loop_fuel") {
                 Some(Value::String(e)) => e.clone(),
@@ -1765,6 +1846,9 @@ fn main() {
                             other => return Err(format!("inner_block: unknown branch `{}`", other)),
                         };
                         body_stmts = inner.into_iter().filter(|s| !stmt_is_verif_hook(s)).collect();
+                    }
+                    if !cfg.scalarize.is_empty() {
+                        body_stmts = Scalarize { names: &cfg.scalarize }.expand(body_stmts);
                     }
                     if cfg.skip_stmts > 0 {
                         // the first n statements are not translated: what they compute is a parameter of the target (see `params`, `subst`)
